@@ -122,7 +122,11 @@ fn fragments(c: Class) -> Vec<Frag> {
             // the residual token stream of the first two is a complete program
             d("let a = num; $", NOP),
             d("let a = num;\n\u{a7}\nlet b = str;", NOP),
+            // white space to Unicode, not to the language: an error even as the last character
+            d("let a = num;\u{a0}", NOP),
             d("let a = 99999999999999999999999;", NOP),
+            d("let a = num;\n\u{2028}", NOP),
+            d("let a = num;\u{c}", NOP),
             d("let a = %;", NOP),
             d("let a = \"unterminated;", NOP),
             d("let a = num ^ str;", NOP),
@@ -267,7 +271,7 @@ fn embed(class: Class, fi: usize, frag: Frag, e: usize) -> Program {
             "main.oal",
         ),
         // the declarations (which hold the error) last, and nothing after the last token
-        "eof" => (vec![m("main.oal", format!("{plain}\n{decls}").trim_end().to_owned())], "main.oal"),
+        "eof" => (vec![m("main.oal", format!("{plain}\n{decls}").trim_end_matches([' ', '\n', '\r', '\t']).to_owned())], "main.oal"),
         "import" => (
             vec![
                 m("main.oal", format!("use \"m.oal\";\n{plain}\n")),
@@ -1180,15 +1184,16 @@ fn check_two_folders(dir: &TempDir, a: &Program, b: &Program) -> Result<u64, Bad
             json!({"textDocument": {"uri": format!("{}/main.oal", roots[0])}, "position": {"line": 0, "character": 0}}),
             &mut notes,
         )?;
+        // What the editor shows in the end: the last publication for every document.
+        let mut last: std::collections::BTreeMap<String, u64> = Default::default();
+        for m in notes.iter().filter(|m| m["method"] == "textDocument/publishDiagnostics") {
+            if let Some(u) = m["params"]["uri"].as_str() {
+                last.insert(u.to_owned(), m["params"]["diagnostics"].as_array().map_or(0, |x| x.len() as u64));
+            }
+        }
         Ok(roots
             .iter()
-            .map(|r| {
-                notes
-                    .iter()
-                    .filter(|m| m["method"] == "textDocument/publishDiagnostics" && m["params"]["uri"].as_str().map_or(false, |u| u.starts_with(&format!("{r}/"))))
-                    .map(|m| m["params"]["diagnostics"].as_array().map_or(0, |x| x.len() as u64))
-                    .sum()
-            })
+            .map(|r| last.iter().filter(|(u, _)| u.starts_with(&format!("{r}/"))).map(|(_, n)| *n).sum())
             .collect())
     };
     let counts = run(&roots).or_else(|_| run(&roots)).map_err(|e| bad("lsp", "oal-lsp", "the server does not answer".into(), format!("{what}: {e}")))?;
